@@ -1,7 +1,9 @@
 #![forbid(unsafe_code)]
 #![allow(unused, unused_must_use)]
 use gecs::prelude::*;
+#[derive(Clone)]
 pub struct CompA(pub u32);
+#[derive(Clone)]
 pub struct CompB(pub u32);
 pub struct CompRc(pub std::rc::Rc<u32>);
 ecs_world! {
@@ -22,7 +24,6 @@ fn main() {
     let mut world = EcsWorld::default();
     let e = world.create::<ArchFoo>((CompA(1), CompB(2)));
     let e2 = world.create::<ArchFoo>((CompA(3), CompB(4)));
-    { let kept = world.arch_foo.get_slice_mut::<CompB>();
-    kept[0].0 += 1; }
-    world = world.clone();
+    let w = rcw::RcWorld::default();
+    std::thread::spawn(move || { drop(w); });
 }
